@@ -19,7 +19,7 @@ for f in files:
             continue
         idx = len(pairs) - 1
         for i, (_, sel) in enumerate(pairs):
-            if sel and sel in h:
+            if sel and re.search(sel, h):
                 idx = i
                 break
         per[idx].append(h)
